@@ -31,6 +31,7 @@ EVID = Path(os.environ.get("VERIF_EVIDENCE_DIR") or (VERIF / "evidence"))  # ove
 REPLAYS = Path(os.environ.get("VERIF_REPLAY_DIR") or (VERIF / "replays"))
 CORPUS = VERIF / "corpus"
 KNOWN = VERIF / "KNOWN_FINDINGS.json"
+_IMPL_STARTED = False
 STD_AXIOMS = {"propext", "Classical.choice", "Quot.sound"}
 FORBIDDEN = re.compile(
     r"\bsorry\b|\badmit\b|^\s*axiom\s|native_decide|bv_decide|implemented_by|\bunsafe\s|maxHeartbeats\s+0\b"
@@ -61,6 +62,8 @@ def import_repo():
         pass
     import sleap_nn  # noqa
 
+    global _IMPL_STARTED
+    _IMPL_STARTED = True
     p = Path(sleap_nn.__file__).resolve()
     if REPO.resolve() not in p.parents:
         raise RuntimeError(f"sleap_nn resolves to {p}, not under {REPO}")
@@ -246,6 +249,7 @@ class Check:
         self.failing: list[dict] = []        # property oracle failed on impl (concrete input)
         self.known_lines: list[str] = []
         self.knife_edges = 0
+        self.impl_started = False  # set by import_repo(): from then on the implementation is in play
         self.thorough = self.tier == "thorough"
         self.known = load_known(pid)
 
@@ -436,6 +440,16 @@ def run_check(chk: "Check", main, replay=None):
             chk.disagree("implementation raised where the model does not",
                          {"where": f"{last.filename}:{last.lineno} in {last.name}"},
                          f"raise:{type(e).__name__}: {str(e)[:300]}", "ok")
+            chk.finish()
+        if (chk.impl_started or _IMPL_STARTED) and not isinstance(e, (LeanError, OSError, MemoryError)):
+            # The harness could not interpret what the implementation returned (wrong shape,
+            # missing key, empty tensor …).  On the unchanged tree this never happens (it would be
+            # a broken check either way); on a changed tree it means the correspondence no longer
+            # holds, so it is reported through the normal channel rather than as exit 2.
+            last = tb[-1]
+            chk.disagree("harness could not interpret the implementation's output",
+                         {"where": f"{last.filename}:{last.lineno} in {last.name}"},
+                         f"{type(e).__name__}: {str(e)[:300]}", "well-formed output")
             chk.finish()
         print("INFRASTRUCTURE-ERROR (exit 2, not a verdict)", file=sys.stderr)
         sys.exit(2)
